@@ -1,43 +1,202 @@
 """C20 plug-in of the extractor: shape of `_RateLimitedFileWrapper` and of the places where the commands build the
 limiter.  Nothing here is a proof obligation (a harmless rewrite must not alarm): the booleans only tell the harness
-to spend more correspondence cases when the code no longer has the shape the model was written from."""
-import ast
-import re
+to spend more correspondence cases when the code no longer has the shape the model was written from.
+
+All of it is read off a symbolic execution (tools/optflow.py), not off the text:
+
+* `wrapperShapeRecognised` — `read` / `write` of the wrapper, by what they DO: clock, the underlying call, clock, then
+  `limiter.pause_reads|pause_writes(max(n / limiter.read_limit|write_limit − (t1 − t0), 0))` with n the number of bytes moved,
+  and the result of the underlying call returned; `seek` / `tell` / `truncate` hand their arguments to the underlying file.
+  The names of the two private attributes are whatever `__init__` stores its two parameters under; locals are irrelevant.
+* `limiterCommandSites` — in how many of snapshot / restore / upload_objects / download_objects a `RateLimitedIO(rate_limit)`
+  is built when a limit is given (directly or in a helper the command calls);
+* `limiterWrapSites` — in how many of them a stream is wrapped by THAT limiter (`<limiter>.wrap(…)`);
+* `s3DigestReadBlocks` — the piece size `_get_stream_hexdigest` reads with, in hash blocks.
+"""
+import sys
+from pathlib import Path
+
+sys.path.insert(0, str(Path(__file__).resolve().parent.parent))
+import optflow as F  # noqa: E402
+
+COMMANDS = ('snapshot', 'restore', 'upload_objects', 'download_objects')
+
+
+def _wrapper_attrs(repo, cls):
+    """the attributes `__init__(self, file, limiter)` keeps its two parameters in → (file attr, limiter attr)"""
+    init = cls.find_method('__init__')
+    if init is None:
+        return None
+    names = [a.arg for a in init.node.args.args]
+    if len(names) != 3:
+        return None
+    ex = F.Exec(repo)
+    ex.run(init)
+    got = {}
+    for ev in ex.events:
+        if ev.kind == 'setattr' and ev.obj.op == 'self' and ev.value.op == 'p' and ev.value.a[0] in names[1:]:
+            got[ev.value.a[0]] = ev.name
+    if set(got) != set(names[1:]):
+        return None
+    return got[names[1]], got[names[2]]
+
+
+def _transfer_ok(repo, cls, meth, io_name, limit_attr, pause_name, fattr, lattr):
+    """`read(size)` / `write(data)`: see the module docstring"""
+    fn = cls.find_method(meth)
+    if fn is None:
+        return 'missing'
+    ex = F.Exec(repo)
+    ret = ex.run(fn)
+    me = F.mk('self', cls)
+    FILE, LIM = F.mk('attr', me, fattr), F.mk('attr', me, lattr)
+    calls = [e for e in ex.events if e.kind == 'call']
+    if any(e.kind in ('raise', 'setitem', 'unknown-stmt') for e in ex.events) or ex.loops:
+        return 'has other effects'
+    if any(e.kind == 'setattr' and not (e.obj is me and e.name not in (fattr, lattr)) for e in ex.events):
+        return 'has other effects'          # (bookkeeping attributes of the wrapper itself — counters — are not effects)
+    clocks = [e for e in calls if e.fq() == 'time.perf_counter']
+    ios = [e for e in calls if F.method_call(e, io_name) is FILE]
+    pauses = [e for e in calls if F.method_call(e, pause_name) is LIM]
+    if len(clocks) != 2 or len(ios) != 1 or len(pauses) != 1:
+        return f'{len(clocks)} clock reads, {len(ios)} underlying calls, {len(pauses)} pauses'
+    t0, t1, io, pause = clocks[0], clocks[1], ios[0], pauses[0]
+    if not (t0.id < io.id < t1.id < pause.id) or any(e.pc for e in (t0, io, t1, pause)):
+        return 'order of clock / underlying call / pause'
+    param = F.mk('p', fn.node.args.args[1].arg)
+    if list(io.args) != [param] or io.kwargs:
+        return 'underlying call does not receive the argument'
+    if ret is not io.result:
+        return 'result of the underlying call is not returned'
+    moved = io.result if meth == 'write' else None
+    if len(pause.args) != 1 or pause.kwargs:
+        return 'pause argument'
+    a = pause.args[0]
+    if not (a.op == 'call' and F.callee_name(a.a[0]) == 'max' and len(a.a[1]) == 2 and not a.a[2]):
+        return 'pause is not max(…, 0)'
+    rest = [x for x in a.a[1] if not F.is_k(x, 0)]
+    if len(rest) != 1:
+        return 'pause is not max(…, 0)'
+    d = rest[0]
+    elapsed = F.mk('bin', '-', t1.result, t0.result)
+    if not (d.op == 'bin' and d.a[0] == '-' and d.a[2] is elapsed):
+        return 'pause is not expected − elapsed'
+    exp = d.a[1]
+    if not (exp.op == 'bin' and exp.a[0] == '/' and exp.a[2] is F.mk('attr', LIM, limit_attr)):
+        return 'expected time is not bytes / limit'
+    n = exp.a[1]
+    if meth == 'write':
+        ok = n is moved
+    else:
+        ok = n.op == 'call' and F.callee_name(n.a[0]) == 'len' and list(n.a[1]) == [io.result]
+    return None if ok else 'byte count'
+
+
+def _delegate_ok(repo, cls, meth, fattr):
+    fn = cls.find_method(meth)
+    if fn is None:
+        return 'missing'
+    ex = F.Exec(repo)
+    ret = ex.run(fn)
+    FILE = F.mk('attr', F.mk('self', cls), fattr)
+    calls = [e for e in ex.events if e.kind == 'call']
+    if len(calls) != 1 or F.method_call(calls[0], meth) is not FILE or ret is not calls[0].result:
+        return 'does not hand over to the underlying file'
+    a = fn.node.args
+    want_args = [F.mk('p', x.arg) for x in a.args[1:]] + ([F.mk('star', F.mk('p', a.vararg.arg))] if a.vararg else [])
+    want_kw = [(None, F.mk('p', a.kwarg.arg))] if a.kwarg else []
+    if list(calls[0].args) != want_args or list(calls[0].kwargs) != want_kw:
+        return 'arguments are not passed through'
+    return None
 
 
 def section(ctx):
-    src = (ctx.REPO / 'replicat' / 'utils' / '__init__.py').read_text()
-    tree = ast.parse(src)
-    w = ctx.find_func(tree, '_RateLimitedFileWrapper')
+    repo = F.shared_repo(ctx.REPO)
+    umod = repo.module('replicat.utils')
     for cls in ('TQDMIOBase', 'TQDMIOReader', 'TQDMIOWriter'):
-        ctx.fp(f'utils.{cls}', ctx.find_func(tree, cls))
+        c = repo.cls('replicat.utils', cls)
+        ctx.fp(f'utils.{cls}', c.node if c is not None else None)
+    # the wrapper class: whatever `RateLimitedIO.wrap(file)` instantiates with (file, the limiter)
+    w = None
+    wrap = repo.func('replicat.utils', 'RateLimitedIO', 'wrap') if umod is not None else None
+    if wrap is not None:
+        try:
+            wx = F.Exec(repo)
+            r = wx.run(wrap)
+            if r.op == 'call' and r.a[0].op == 'cls' and len(r.a[1]) == 2 and r.a[1][0].op == 'p' and r.a[1][1].op == 'self' and not r.a[2]:
+                w = r.a[0].a[0]
+        except Exception:  # noqa: BLE001
+            w = None
+    if w is None:
+        ctx.notes['_RateLimitedFileWrapper'] = 'RateLimitedIO.wrap does not build a wrapper from (file, limiter)'
     ok = w is not None
-    want = {
-        'read': ("start = time.perf_counter()\ndata = self._file.read(size)\nreal_elapsed = time.perf_counter() - start\n"
-                 "expected_elapsed = len(data) / self._rate_limiter.read_limit\n"
-                 "self._rate_limiter.pause_reads(max(expected_elapsed - real_elapsed, 0))\nreturn data"),
-        'write': ("start = time.perf_counter()\nbytes_written = self._file.write(data)\nreal_elapsed = time.perf_counter() - start\n"
-                  "expected_elapsed = bytes_written / self._rate_limiter.write_limit\n"
-                  "self._rate_limiter.pause_writes(max(expected_elapsed - real_elapsed, 0))\nreturn bytes_written"),
-        'seek': "return self._file.seek(*args, **kwargs)",
-        'tell': "return self._file.tell(*args, **kwargs)",
-        'truncate': "return self._file.truncate(*args, **kwargs)",
-    }
     if ok:
-        for name, body in want.items():
-            f = ctx.find_func(w, name)
-            got = '\n'.join(ctx.unparse(s) for s in f.body) if f is not None else None
-            if got != body:
+        try:
+            attrs = _wrapper_attrs(repo, w)
+            if attrs is None:
                 ok = False
-                ctx.notes[f'_RateLimitedFileWrapper.{name}'] = 'shape differs from the modelled one'
+                ctx.notes['_RateLimitedFileWrapper.__init__'] = 'shape differs from the modelled one'
+            else:
+                fattr, lattr = attrs
+                checks = {'read': _transfer_ok(repo, w, 'read', 'read', 'read_limit', 'pause_reads', fattr, lattr),
+                          'write': _transfer_ok(repo, w, 'write', 'write', 'write_limit', 'pause_writes', fattr, lattr)}
+                for m in ('seek', 'tell', 'truncate'):
+                    checks[m] = _delegate_ok(repo, w, m, fattr)
+                for name, why in checks.items():
+                    if why is not None:
+                        ok = False
+                        ctx.notes[f'_RateLimitedFileWrapper.{name}'] = f'shape differs from the modelled one ({why})'
+        except Exception as e:  # noqa: BLE001 — advisory flag: an analysis failure means "not the modelled shape"
+            ok = False
+            ctx.notes['_RateLimitedFileWrapper'] = f'shape differs from the modelled one ({e!r})'
     ctx.emit(f'def wrapperShapeRecognised : Bool := {"true" if ok else "false"}')
-    rsrc = (ctx.REPO / 'replicat' / 'repository.py').read_text()
-    sites = len(re.findall(r'utils\.RateLimitedIO\(rate_limit\)', rsrc))
-    wraps = len(re.findall(r'rate_limiter\.wrap\(stream\)', rsrc))
+    # ---- where the commands build the limiter and wrap their streams
+    sites = wraps = 0
+    for name in COMMANDS:
+        fn = repo.func('replicat.repository', 'Repository', name)
+        if fn is None:
+            continue
+        try:
+            ex = F.Exec(repo)
+            ex.run(fn)
+        except Exception:  # noqa: BLE001
+            continue
+        RL = F.mk('p', 'rate_limit')
+        given = F.Val().set(F.mk('isnone', RL), False)
+        limiters = [e for e in ex.events if e.kind == 'call' and e.fq() == 'replicat.utils.RateLimitedIO' and list(e.args[:1]) == [RL]
+                    and F.truth(e.pc, given) is not False]
+        if limiters:
+            sites += 1
+        made = {id(e.result) for e in limiters}
+        if any(e.kind == 'call' and F.method_call(e, 'wrap') is not None and F.truth(e.pc, given) is not False
+               and id(F.resolve(F.method_call(e, 'wrap'), given)) in made for e in ex.events):
+            wraps += 1
     ctx.emit(f'def limiterCommandSites : Nat := {sites}')
     ctx.emit(f'def limiterWrapSites : Nat := {wraps}')
     if sites != 4 or wraps != 4:
         ctx.notes['limiter_sites'] = f'{sites} constructions, {wraps} wraps (expected 4 and 4)'
-    s3 = (ctx.REPO / 'replicat' / 'backends' / 's3c.py').read_text()
-    m = re.search(r'chunk_size = hasher\.block_size \* ([\d_]+)', s3)
-    ctx.emit(f'def s3DigestReadBlocks : Nat := {int(m.group(1).replace("_", "")) if m else 0}')
+    # ---- S3: the digest of a stream is computed in pieces of `block_size * N`
+    blocks = 0
+    fn = repo.func('replicat.backends.s3c', '_get_stream_hexdigest')
+    if fn is not None:
+        try:
+            ex = F.Exec(repo)
+            ex.run(fn)
+            stream = F.mk('p', fn.node.args.args[0].arg)
+            sizes = set()
+            for e in ex.events:
+                if e.kind == 'call' and F.method_call(e, 'read') is stream and len(e.args) == 1:
+                    a = e.args[0]
+                    if a.op == 'bin' and a.a[0] == '*':
+                        x, y = a.a[1], a.a[2]
+                        if F.is_k(x):
+                            x, y = y, x
+                        if x.op == 'attr' and x.a[1] == 'block_size' and F.is_k(y) and type(y.a[0]) is int:
+                            sizes.add(y.a[0])
+                            continue
+                    sizes.add(0)
+            if len(sizes) == 1:
+                blocks = sizes.pop()
+        except Exception:  # noqa: BLE001
+            blocks = 0
+    ctx.emit(f'def s3DigestReadBlocks : Nat := {blocks}')
